@@ -9,4 +9,6 @@ pub type VersionId = Uuid;
 //@include vocab/ws_trim_lemmas.rs
 //@include vocab/workingset.rs
 //@include regions/rebuild_impl.rs
+//@include regions/taskdb_types.rs
+//@include regions/taskdb_rebuild_wrapper.rs
 //@include prelude/tail.rs
